@@ -48,6 +48,8 @@ func c06Tree(n ast.Ast) string {
 		return "Aug(" + c06Tree(x.Target) + x.Op.String() + c06Tree(x.Value) + ")"
 	case *ast.If:
 		return "If(" + c06Tree(x.Test) + ")" + c06Body(x.Body) + "else" + c06Body(x.Orelse)
+	case *ast.For:
+		return "For(" + c06Tree(x.Target) + " in " + c06Tree(x.Iter) + ")" + c06Body(x.Body) + "else" + c06Body(x.Orelse)
 	case *ast.While:
 		return "While(" + c06Tree(x.Test) + ")" + c06Body(x.Body) + "else" + c06Body(x.Orelse)
 	case *ast.Return:
@@ -289,4 +291,53 @@ func VerifC06SpellingsTokens() {
 	s.split = verifChoice("split", 2)
 	s.cont, s.closeAt = 6, 2
 	c06SpellCheck(s)
+}
+
+// a trailing comma makes a tuple wherever a bare expression list is allowed:
+// for every such position, one or two elements, with and without the trailing
+// comma: a Tuple node iff there are two elements or a trailing comma.
+//
+//verif:property C06
+//verif:expect parsed
+func VerifC06TrailingComma() {
+	n := 1 + verifChoice("n", 2)
+	trailing := verifChoice("trailing", 2) == 1
+	list := "a"
+	tree := "a"
+	if n == 2 {
+		list = "a, b"
+		tree = "a,b,"
+	}
+	if trailing {
+		list += ","
+	}
+	if n == 2 || trailing {
+		if n == 1 {
+			tree = "a,"
+		}
+		tree = "Tuple[" + tree + "]"
+	}
+	var src, want string
+	switch verifChoice("where", 7) {
+	case 0:
+		src, want = "for "+list+" in x: pass\n", "Module{For("+tree+" in x){Pass;}else{};}"
+	case 1:
+		src, want = "for x in "+list+": pass\n", "Module{For(x in "+tree+"){Pass;}else{};}"
+	case 2:
+		src, want = list+" = x\n", "Module{Assign("+tree+"=x);}"
+	case 3:
+		src, want = "x = "+list+"\n", "Module{Assign(x="+tree+");}"
+	case 4:
+		src, want = "def f():\n    return "+list+"\n", "Module{Def(f;){Return("+tree+");};}"
+	case 5:
+		src, want = "x["+list+"]\n", "Module{Expr(Sub(x,"+tree+"));}"
+	default:
+		src, want = "x += "+list+"\n", "Module{Aug(xAdd()"+tree+");}"
+	}
+	verifLog(src)
+	got, err := ParseString(src, py.ExecMode)
+	verifReach("parsed")
+	verifAssert(err == nil, "a legal statement parses")
+	verifLog(c06Tree(got))
+	verifAssert(c06Tree(got) == want, "an expression list is a tuple iff it has several elements or a trailing comma")
 }
